@@ -251,4 +251,22 @@ theorem lookup_dctOf {α} (k : List Nat) : ∀ (l d : List (List Nat × α)),
       rw [lookup_insert]
       cases (p.1 == k) <;> rfl
 
+/-- filtering by a test on the KEY keeps the last occurrence of every key that passes the test -/
+theorem lastOcc_filter {α} (P : List Nat → Bool) (k : List Nat) (hk : P k = true) : ∀ (l : List (List Nat × α)),
+    lastOcc k (l.filter fun p => P p.1) = lastOcc k l := by
+  intro l
+  induction l with
+  | nil => rfl
+  | cons p t ih =>
+    by_cases hp : P p.1 = true
+    · rw [List.filter_cons_of_pos (by simpa using hp), lastOcc, lastOcc, ih]
+    · rw [List.filter_cons_of_neg (by simpa using hp), lastOcc, ih]
+      have hne : (p.1 == k) = false := by
+        cases h : (p.1 == k) with
+        | false => rfl
+        | true =>
+          have : p.1 = k := by simpa using h
+          rw [this, hk] at hp; exact absurd rfl hp
+      cases lastOcc k t <;> simp [hne]
+
 end PyYetiVerif.Op4VR
